@@ -79,6 +79,14 @@ def progs():
         ("sig", "def prog(a: Qchar, b: Qchar) -> bool:\n    return a == b\n"),
         ("sig", "def prog(a: Tuple[Qchar, bool]) -> Qchar:\n    return a[0] if a[1] else 'k'\n"),
         ("sig", "def prog(a: Qlist[bool, 5]) -> Qint[4]:\n    c = 0\n    for x in a:\n        c += 1 if x else 0\n    return c\n"),
+        # return bits that are a sub-expression and its negation / share sub-expressions (distinct
+        # output qubits are needed even when the compiler could reuse one)
+        ("sig", "def prog(a: bool, b: bool) -> Tuple[bool, bool]:\n    return (not (a and b), a and b)\n"),
+        ("sig", "def prog(a: Qint[2], b: Qint[2]) -> Tuple[bool, bool]:\n    return (a <= b, a > b)\n"),
+        ("sig", "def prog(a: bool, b: bool, c: bool) -> Tuple[bool, bool, bool]:\n    return ((a or b) and c, not ((a or b) and c), a or b)\n"),
+        ("sig", "def prog(a: Qint[2], b: Qint[2]) -> Tuple[bool, bool, bool]:\n    return (a == b, a != b, a == b)\n"),
+        ("sig", "def prog(a: Qint[2], b: bool, c: bool) -> Tuple[Qint[2], bool, bool]:\n    return (a, b, c)\n"),
+        ("sig", "def prog(a: Qint[2], b: bool) -> Tuple[bool, bool, Qint[2], bool]:\n    return (b, a[0], a, not b)\n"),
     ]
     return extra + P
 
